@@ -58,10 +58,17 @@ def judgeField (inp obs : List String) : Verdict :=
       | "string" => showOpt (fun s => hx (utf8 s)) (parseString y)
       | "search" => showOpt (fun s => hx (utf8 s)) (parseSearchDomain y)
       | "strarray" => showOpt (fun l => ",".intercalate (l.map fun s => hx (utf8 s))) (parseArray parseString y)
+      -- socket addresses: the model decides only what `st.get(0..1)` decides (an empty string or one that does not
+      -- start with an ASCII character is refused); `*` = the rest is std's / the OS's parser, any verdict but a panic
+      | "sockaddr" => (match parseString y with
+          | .ok none => "none"
+          | .ok (some s) => if s.isEmpty || (s.toList.headD 'a').toNat ≥ 128 then "err" else "*"
+          | .err _ => "err"
+          | .panic w => "model-panic:" ++ w)
       | "typename" => (match typeToName y with | .ok s => "ok:" ++ hx (utf8 s) | .err _ => "err" | .panic s => "model-panic:" ++ s)
       | _ => "bad-kind"
     if o.startsWith "panic" then { corr := "differ:impl-panic model=" ++ m, spec := s!"unsat:C19.load_total:{k}" }
-    else { corr := agreeIf (o == m) ("model=" ++ m), spec := "sat" }
+    else { corr := agreeIf (o == m || m == "*") ("model=" ++ m), spec := "sat" }
   | _, _ => badInput "cfgfield"
 
 /-- `cfgload y=<hex> [expect=ok|err] [src=<label>]`: the oracle is the statement itself (a result, never a panic; examples load) -/
